@@ -60,6 +60,12 @@ RULE = (
     "glued in reverse order: each request is judged by the same outcome table, must return or raise within the "
     "documented timeouts (10 s + 60 s + 10 s slack, else request-never-finished), no two requests get the same "
     "connection, registry == the returned connections, no waiter / socket / task left. "
+    "In every role a peer without obfuscated port may have its address relayed WITHOUT the optional obfuscated port "
+    "part (GetPeerAddress.Response / ConnectToPeer.Response fields absent on the wire, None after decoding) x "
+    "network.peer.obfuscate: nothing changes in the expectation (the clear port is used). Role 'multi' may also lose "
+    "the server connection and log in again (connect_server + SessionInitializedEvent) between two overlapping "
+    "requests (the earlier one already past its lookup and ConnectToPeer): outcomes as per table, and the tickets in "
+    "the ConnectToPeer requests the server receives for requests whose indirect attempts overlap in time are distinct. "
     "Role 'reuse' = the re-use path in front of create_peer_connection (Network.get_peer_connection / "
     "send_peer_messages) with an earlier P/D connection to the peer (made by us or by the peer) that is being closed "
     "(EOF / reset by the peer, local disconnect) while a listener of its CLOSING report suspends for 0 / 300 ms "
@@ -176,9 +182,26 @@ def _sanitise_multi(case):
                      'direct': beh['direct'], 'indirect': beh['indirect']})
     if len(reqs) < 2:
         return None
-    return {'role': 'multi', 'mode': _pick(case.get('mode'), ('fallback', 'race'), 'fallback'), 'requests': reqs,
+    mode = _pick(case.get('mode'), ('fallback', 'race'), 'fallback')
+    relogin = case.get('relogin_ms')
+    if relogin is not None:
+        # the server connection is lost at relogin_ms and we log in again right away. Requests started before it must
+        # have their address and their ConnectToPeer through by then (a lookup on a dead server connection has no
+        # timeout: outside the quantifier), requests after it start once the new session is initialised
+        relogin = _int(relogin, 0, 20000, 10)
+        early = [r for r in reqs if r['start_ms'] < relogin]
+        for r in early:
+            m = _model({'addr': 'lookup', 'mode': mode, 'cancel_ms': None, 'direct': r['direct'],
+                        'indirect': r['indirect']})
+            ready = r['start_ms'] + max(m['look'], (m['s_i'] if m['s_i'] is not None else 0.0) + 1.0) + 2.0
+            relogin = max(relogin, int(ready) + 1)
+        for r in reqs:
+            if r not in early:
+                r['start_ms'] = max(r['start_ms'], relogin + 10)
+    return {'role': 'multi', 'mode': mode, 'requests': reqs,
             'glue': bool(case.get('glue')), 'reverse_replies': bool(case.get('reverse_replies')),
-            'prefer_obf': False, 'ev_hops': _int(case.get('ev_hops', 0), 0, 3, 0)}
+            'prefer_obf': bool(case.get('prefer_obf')), 'omit_obf': bool(case.get('omit_obf')),
+            'relogin_ms': relogin, 'ev_hops': _int(case.get('ev_hops', 0), 0, 3, 0)}
 
 
 def _sanitise_reuse(case):
@@ -216,6 +239,7 @@ def _sanitise(case):
         'role': role,
         'typ': _pick(case.get('typ'), TYPES, 'P'),
         'prefer_obf': bool(case.get('prefer_obf')),
+        'omit_obf': bool(case.get('omit_obf')),     # a peer without obfuscated port: that part is absent, not 0
         'ev_hops': _int(case.get('ev_hops', 0), 0, 3, 0),
         'd_hops': _int(case.get('d_hops', 0), 0, MAX_HOPS, 0),
     }
@@ -374,6 +398,21 @@ def _model(c):
 # ---------------------------------------------------------------------------
 # harness helpers
 
+def _omit_obfuscated_part(world, names):
+    """GetPeerAddress replies for ``names`` (peers without obfuscated port) leave the optional trailing obfuscated
+    port part off the wire (the fields decode to None), as the message definition allows."""
+    M = simworld.M()
+    previous = world.server.handlers.get(M.GetPeerAddress.Request)
+
+    def address_reply(server, idx, msg):
+        u = server.users.get(msg.username)
+        if msg.username in names and u and u.get('online', True) and not u.get('obf_port'):
+            server.send(M.GetPeerAddress.Response(msg.username, u['ip'], u.get('port', 0)), idx)
+            return True
+        return bool(previous and previous(server, idx, msg))
+    world.server.handlers[M.GetPeerAddress.Request] = address_reply
+
+
 def _after_hops(loop, n, fn, *args):
     """Call fn after n further loop iterations (zero virtual time)."""
     if n <= 0:
@@ -420,8 +459,10 @@ def _make_peer_class():
                 self.loop.call_later(max(simnet.MIN_LATENCY, self.indirect_delay), self._pierce, msg)
             if self.indirect in ('cannot', 'both'):
                 delay = self.cc_delay if self.indirect == 'both' else self.indirect_delay
-                server.send(simworld.M().CannotConnect.Response(msg.ticket), session_idx,
-                            delay=max(simnet.MIN_LATENCY, delay))
+                notice = simworld.M().CannotConnect.Response(msg.ticket)
+                # to whatever session of ours is current by then (we may have logged in again in the meantime)
+                self.loop.call_later(max(simnet.MIN_LATENCY, delay),
+                                     lambda: server.send(notice, len(server.sessions) - 1))
 
         def _pierce(self, msg):
             port = MY_PORTS[1 if self.pierce_obf else 0]
@@ -510,8 +551,8 @@ def _snapshot(world, network, label, returned, returned_tr, server_link, final, 
             what = 'unowned-connection:' + ('incoming' if conn.incoming else 'outgoing')
         out.append((label, what, repr(conn), announced_ms(conn) if announced_ms else None))
     for link in world.net.links:
-        if link is server_link:
-            continue
+        if link is server_link or any(side is sess for side in link.sides for sess in world.server.sessions):
+            continue        # (a) connection to the server
         for idx, side in enumerate(link.sides):
             if not isinstance(side, simnet.MemTransport) or side.dead:
                 continue
@@ -708,11 +749,16 @@ def _run_request(c) -> CaseResult:
             def address_reply(server, idx, msg):
                 if msg.username != PEER_NAME:
                     return False
-                server.send(M.GetPeerAddress.Response(PEER_NAME, PEER_IP, adv_port,
-                                                      obfuscated_port_amount=1 if adv_obf else 0,
-                                                      obfuscated_port=adv_obf), idx)
+                if c['omit_obf'] and not adv_obf:
+                    server.send(M.GetPeerAddress.Response(PEER_NAME, PEER_IP, adv_port), idx)
+                else:
+                    server.send(M.GetPeerAddress.Response(PEER_NAME, PEER_IP, adv_port,
+                                                          obfuscated_port_amount=1 if adv_obf else 0,
+                                                          obfuscated_port=adv_obf), idx)
                 return True
             world.server.handlers[M.GetPeerAddress.Request] = address_reply
+        if c['omit_obf']:
+            _omit_obfuscated_part(world, {PEER_NAME})
         if ik == 'sendfail':
             tr = network.server_connection._writer.transport
             plain_write = tr.write
@@ -918,6 +964,8 @@ def _run_request(c) -> CaseResult:
     res.label('role:request', 'mode:' + c['mode'], 'direct:' + dlabel, 'indirect:' + ilabel,
               'order:' + model['order'], 'cancel:' + model['cancel_class'], 'outcome:' + str(tag),
               'ports:' + c['ports'] + ('+prefer-obf' if c['prefer_obf'] else ''), 'typ:' + typ, 'addr:' + c['addr'])
+    if c['omit_obf'] and c['ports'] == 'clear':
+        res.label('obfuscated-port-part-omitted')
     if other_pending:
         res.label('other-attempt-pending-at-finish')
     if tie:
@@ -966,6 +1014,8 @@ def _run_reverse(c) -> CaseResult:
                     direct='accept', direct_delay=0.002, indirect='silent')
         peer.asked_typ = typ
         world.peers[PEER_NAME] = peer
+        if c['omit_obf']:
+            _omit_obfuscated_part(world, {PEER_NAME})
         await asyncio.sleep(0.01)
 
         # history: connections to / from the asking peer that exist (or existed) before it asks us to connect back
@@ -999,9 +1049,13 @@ def _run_reverse(c) -> CaseResult:
         n_connects = len(world.net.opened)
         t0 = loop.time()
         adv_port, adv_obf = _advertised(c)      # 'badport': the relayed address carries ports nobody can connect to
-        world.server.send(M.ConnectToPeer.Response(
-            username=PEER_NAME, typ=typ, ip=PEER_IP, port=adv_port, ticket=ticket, privileged=False,
-            obfuscated_port_amount=1 if adv_obf else 0, obfuscated_port=adv_obf))
+        if c['omit_obf'] and not adv_obf:
+            world.server.send(M.ConnectToPeer.Response(
+                username=PEER_NAME, typ=typ, ip=PEER_IP, port=adv_port, ticket=ticket, privileged=False))
+        else:
+            world.server.send(M.ConnectToPeer.Response(
+                username=PEER_NAME, typ=typ, ip=PEER_IP, port=adv_port, ticket=ticket, privileged=False,
+                obfuscated_port_amount=1 if adv_obf else 0, obfuscated_port=adv_obf))
         await asyncio.sleep((t_done + 200.0) / 1000.0)
         conns = [cn for cn in network.peer_connections if not any(cn is o for o in pre_open)]
         returned = conns[0] if (len(conns) == 1 and dk == 'accept' and reachable) else None
@@ -1098,6 +1152,8 @@ def _run_reverse(c) -> CaseResult:
             res.violate(kind, f'{label}: {detail} | {info}')
     _loop_error_violations(res, loop_errors, ctx)
     res.nontrivial = True
+    if c['omit_obf'] and c['ports'] in ('clear', 'none'):
+        res.label('obfuscated-port-part-omitted')
     res.label('role:reverse', 'reverse-direct:' + (dk if reachable else 'no-port'),
               'ports:' + c['ports'] + ('+prefer-obf' if c['prefer_obf'] else ''), 'typ:' + typ,
               'reverse-outcome:' + ('pierce' if pierces else 'cannot-connect' if cannot else 'nothing'),
@@ -1141,7 +1197,19 @@ def _run_multi(c) -> CaseResult:
     models = []
     for r in reqs:
         rc = {'addr': 'lookup', 'mode': c['mode'], 'cancel_ms': None, 'direct': r['direct'], 'indirect': r['indirect']}
-        models.append(_model(rc))
+        m = _model(rc)
+        if c['relogin_ms'] is not None and r['indirect']['kind'] == 'cannot' and m['s_i'] is not None:
+            sent = r['start_ms'] + m['s_i'] + 1.0 + r['indirect']['ms']
+            if c['relogin_ms'] - 3.0 <= sent <= c['relogin_ms'] + 12.0:
+                # the notice leaves the server while we have no session: it may be lost with the old connection, the
+                # attempt then runs into its own timeout -- both readings are accepted
+                alt = _model(dict(rc, indirect=dict(r['indirect'], kind='silent')))
+                m = dict(m)
+                m['allowed'] = set(m['allowed']) | set(alt['allowed'])
+                m['t_exp'] = {tag: max(m['t_exp'].get(tag, 0.0), alt['t_exp'].get(tag, 0.0))
+                              for tag in set(m['t_exp']) | set(alt['t_exp'])}
+                m['t_i'] = max(m['t_i'], alt['t_i'])
+        models.append(m)
     obs = _Observer()
     outcomes = [None] * len(reqs)
     done_ms = [None] * len(reqs)
@@ -1184,10 +1252,27 @@ def _run_multi(c) -> CaseResult:
                                                       obfuscated_port=0), idx)
                 return True
             world.server.handlers[M.GetPeerAddress.Request] = address_reply
+        if c['omit_obf']:
+            _omit_obfuscated_part(world, {MULTI_USERS[r['user']] for r in reqs})
         if c['glue']:
             _glue_server_replies(loop, world.server.sessions[-1], c['reverse_replies'])
         await asyncio.sleep(0.01)
         t0 = loop.time()
+
+        async def relogin():
+            # the server drops us; we connect again and the session layer reports the new login
+            from aioslsk.events import SessionInitializedEvent
+            await asyncio.sleep(c['relogin_ms'] / 1000.0)
+            world.server.close_session(-1, 'eof')
+            await asyncio.sleep(0.003)
+            await network.connect_server()
+            network.server_connection.start_reader_task()
+            await asyncio.sleep(0.002)
+            if c['glue']:
+                _glue_server_replies(loop, world.server.sessions[-1], c['reverse_replies'])
+            await keep[3].emit(SessionInitializedEvent(None, None))
+            obs.facts['relogin_done_ms'] = (loop.time() - t0) * 1000.0
+        relogin_task = asyncio.ensure_future(relogin()) if c['relogin_ms'] is not None else None
 
         async def one(k, r):
             delay = t0 + r['start_ms'] / 1000.0 - loop.time()
@@ -1248,11 +1333,40 @@ def _run_multi(c) -> CaseResult:
                 per_req_problems[k].append(('returned-connection-lost', repr(conn)))
         keepalive_task.cancel()
         obs.facts['ctp'] = [(m.ticket, m.username, m.typ) for m in world.server.received(M.ConnectToPeer.Request)]
+        obs.facts['ctp_times'] = [((t - t0) * 1000.0, m.ticket, m.username) for t, _, m in world.server.frames
+                                  if isinstance(m, M.ConnectToPeer.Request)]
         obs.facts['gpa'] = [m.username for m in world.server.received(M.GetPeerAddress.Request)]
+        if relogin_task is not None:
+            if not relogin_task.done() or relogin_task.exception() is not None:
+                obs.facts['relogin_failed'] = repr(relogin_task)
+                relogin_task.cancel()
         await network.disconnect()
         del keep
 
     _, loop_errors = simworld.run_world(main)
+
+    # tickets of requests that are pending at the same time are distinct (observable in what the server receives):
+    # the k-th ConnectToPeer for a user belongs to the k-th request for that user that starts an indirect attempt
+    windows = []
+    for k, (r, model) in enumerate(zip(reqs, models)):
+        if model['s_i'] is not None:
+            windows.append((r['start_ms'] + model['s_i'], r['start_ms'] + model['t_i'], MULTI_USERS[r['user']], k))
+    seen_by_user = {}
+    for t, ticket, username in sorted(obs.facts.get('ctp_times', [])):
+        seen_by_user.setdefault(username, []).append((t, ticket))
+    assigned = []
+    for username, seen in seen_by_user.items():
+        mine = sorted(w for w in windows if w[2] == username)
+        for (t, ticket), w in zip(seen, mine):
+            assigned.append((w[0], w[1], ticket, w[3]))
+    for a in range(len(assigned)):
+        for b in range(a + 1, len(assigned)):
+            (s1, e1, t1, k1), (s2, e2, t2, k2) = assigned[a], assigned[b]
+            if t1 == t2 and s1 < e2 - EPS_MS and s2 < e1 - EPS_MS:
+                res.violate(f'C11/same-ticket-for-two-pending-requests:{c["mode"]}'
+                            + (':after-relogin' if c['relogin_ms'] is not None else ''),
+                            f'requests {k1} and {k2} both use ticket {t1}; ConnectToPeer seen by the server (ms, ticket, '
+                            f'user)={obs.facts.get("ctp_times")} relogin at {c["relogin_ms"]} ms requests={reqs}')
 
     shape = 'same-user' if len({r['user'] for r in reqs}) < len(reqs) else 'different-users'
     for k, (r, model, o) in enumerate(zip(reqs, models, outcomes)):
@@ -1260,7 +1374,8 @@ def _run_multi(c) -> CaseResult:
         who = f'request {k} ({MULTI_USERS[r["user"]]}, {r["typ"]}, start {r["start_ms"]} ms, direct={dk} ' \
               f'indirect={ik}) of {len(reqs)} concurrent ({shape}, glue={c["glue"]}, reverse={c["reverse_replies"]}); ' \
               f'all outcomes={[x[:2] for x in outcomes]} GetPeerAddress seen={obs.facts.get("gpa")} ' \
-              f'ConnectToPeer seen={obs.facts.get("ctp")}'
+              f'ConnectToPeer seen={obs.facts.get("ctp")} relogin at {c["relogin_ms"]} ms ' \
+              f'omit_obf={c["omit_obf"]} prefer_obf={c["prefer_obf"]}'
         tag = None
         if o[0] == 'never':
             res.violate(f'C11/request-never-finished:{c["mode"]}:concurrent', who)
@@ -1302,6 +1417,13 @@ def _run_multi(c) -> CaseResult:
                               f'outcomes={[x[:2] for x in outcomes]}')
     _loop_error_violations(res, loop_errors, 'concurrent')
     res.nontrivial = True
+    if c['relogin_ms'] is not None:
+        res.label('concurrent:relogin-between-requests' if 'relogin_failed' not in obs.facts
+                  else 'concurrent:relogin-step-failed')
+    if c['omit_obf']:
+        res.label('obfuscated-port-part-omitted')
+    if c['prefer_obf']:
+        res.label('concurrent:prefer-obf')
     res.label('role:multi', 'mode:' + c['mode'], 'concurrent:%d-requests' % len(reqs), 'concurrent:' + shape,
               'concurrent:server-replies-' + ('glued' + ('-reversed' if c['reverse_replies'] else '')
                                               if c['glue'] else 'separate'))
@@ -1798,7 +1920,8 @@ def table():
                                 reqs.append({'user': u, 'typ': 'P' if (n + pos) % 4 else 'D', 'start_ms': max(0, start),
                                              'direct': dict(d), 'indirect': dict(i, obf=(n + pos) % 5 == 0)})
                             out.append({'role': 'multi', 'mode': mode, 'glue': glue, 'reverse_replies': rev,
-                                        'requests': reqs, 'ev_hops': n % 2})
+                                        'requests': reqs, 'ev_hops': n % 2, 'omit_obf': n % 3 == 0,
+                                        'prefer_obf': n % 2 == 0})
                             n += 1
     # 4f. the re-use path (get_peer_connection / send_peer_messages) while an earlier connection to the peer is being
     #     closed (EOF / reset by the peer, local disconnect) under a listener that is slow to handle CLOSING: calls
@@ -1826,6 +1949,52 @@ def table():
                                             'call': {'phase': phase, 'ms': ms, 'hops': hops},
                                             'direct': dict(d), 'indirect': dict(i, obf=n % 4 == 0), 'ev_hops': 0})
                                 n += 1
+    # 4g. a peer without obfuscated port whose address arrives WITHOUT the optional obfuscated port part (fields
+    #     absent on the wire, None after decoding) x network.peer.obfuscate: request and reverse role
+    for mode in ('race', 'fallback'):
+        for dname in ('accept-fast', 'accept-slow', 'refuse', 'initfail', 'hang'):
+            dkind, d_list = D_CLASSES[dname]
+            for ikind, i_ms in (('pierce', 60), ('cannot', 3), ('cannot', 4000), ('silent', 1)):
+                for prefer in (False, True):
+                    case = _base_case(mode, dkind, d_list[0], ikind, i_ms, n)
+                    n += 1
+                    case.update(ports='clear', prefer_obf=prefer, addr='lookup', omit_obf=True)
+                    out.append(case)
+    for dkind in ('accept', 'refuse', 'hang', 'initfail'):
+        for ports in ('clear', 'none'):
+            for prefer in (False, True):
+                for typ in TYPES:
+                    out.append({'role': 'reverse', 'typ': typ, 'direct': {'kind': dkind, 'ms': 2}, 'ports': ports,
+                                'prefer_obf': prefer, 'omit_obf': True, 'd_hops': 0, 'ev_hops': len(out) % 3,
+                                'mode': 'race' if len(out) % 2 else 'fallback',
+                                'pre': [{'how': 'out', 'typ': 'P', 'closed': len(out) % 4 == 0}]
+                                if len(out) % 3 == 0 else []})
+    # 4h. two or three requests with a server connection loss and a new login (SessionInitializedEvent) in between:
+    #     the earlier request is still waiting for its indirect outcome when the later one starts in the new session
+    early_beh = [({'kind': 'refuse', 'ms': 3}, {'kind': 'cannot', 'ms': 60}),
+                 ({'kind': 'refuse', 'ms': 3}, {'kind': 'pierce', 'ms': 60}),
+                 ({'kind': 'refuse', 'ms': 3}, {'kind': 'silent', 'ms': 1}),
+                 ({'kind': 'accept', 'ms': 200}, {'kind': 'cannot', 'ms': 60})]
+    late_beh = [({'kind': 'refuse', 'ms': 3}, {'kind': 'pierce', 'ms': 40}),
+                ({'kind': 'refuse', 'ms': 3}, {'kind': 'cannot', 'ms': 40}),
+                ({'kind': 'accept', 'ms': 3}, {'kind': 'silent', 'ms': 1}),
+                ({'kind': 'noaddr', 'ms': 1}, {'kind': 'pierce', 'ms': 80})]
+    for mode in ('fallback', 'race'):
+        for glue in (False, True):
+            for users in ((0, 1), (0, 0), (0, 1, 2), (0, 1, 1)):
+                for a, (d1, i1) in enumerate(early_beh):
+                    for b, (d2, i2) in enumerate(late_beh):
+                        reqs = [{'user': users[0], 'typ': 'P', 'start_ms': 0, 'direct': dict(d1), 'indirect': dict(i1)},
+                                {'user': users[1], 'typ': 'P' if n % 3 else 'D', 'start_ms': 25, 'direct': dict(d2),
+                                 'indirect': dict(i2)}]
+                        if len(users) == 3:
+                            d3, i3 = late_beh[(a + b) % len(late_beh)]
+                            reqs.append({'user': users[2], 'typ': 'P', 'start_ms': 25 + (n % 2) * 5,
+                                         'direct': dict(d3), 'indirect': dict(i3)})
+                        out.append({'role': 'multi', 'mode': mode, 'glue': glue, 'reverse_replies': False,
+                                    'requests': reqs, 'relogin_ms': 10, 'ev_hops': 0, 'omit_obf': n % 5 == 0,
+                                    'prefer_obf': n % 2 == 0})
+                        n += 1
     # 5. reverse role
     for dkind in REV_DIRECT:
         if dkind == 'badport':
@@ -1890,6 +2059,7 @@ def request_strategy(draw):
         'd_hops': draw(_hops), 'i_hops': draw(_hops), 'c_hops': draw(_hops), 'cc_hops': draw(_hops),
         'ev_hops': draw(st.sampled_from([0, 0, 1, 2])),
         'cancel_ms': None,
+        'omit_obf': draw(st.sampled_from([False, False, True])),
     }
     if case['indirect']['kind'] == 'both' and draw(st.integers(0, 2)) > 0:
         case['indirect']['cc_ms'] = max(1, case['indirect']['ms'] + draw(st.sampled_from([-20, -1, 0, 0, 0, 1, 20])))
@@ -1916,6 +2086,7 @@ def reverse_strategy(draw):
         'd_hops': draw(_hops),
         'ev_hops': draw(st.sampled_from([0, 0, 1, 2])),
         'mode': draw(st.sampled_from(['race', 'fallback'])),
+        'omit_obf': draw(st.sampled_from([False, False, True])),
         'pre': draw(st.lists(st.fixed_dictionaries({
             'how': st.sampled_from(['out', 'in']), 'typ': st.sampled_from(['P', 'P', 'D']),
             'closed': st.sampled_from([False, False, True])}), max_size=2)),
@@ -1939,7 +2110,9 @@ def multi_strategy(draw):
         })
     return {'role': 'multi', 'mode': draw(st.sampled_from(['fallback', 'race'])), 'requests': reqs,
             'glue': draw(st.sampled_from([True, True, False])), 'reverse_replies': draw(st.booleans()),
-            'ev_hops': draw(st.sampled_from([0, 0, 1]))}
+            'ev_hops': draw(st.sampled_from([0, 0, 1])), 'omit_obf': draw(st.booleans()),
+            'prefer_obf': draw(st.booleans()),
+            'relogin_ms': draw(st.sampled_from([None, None, 5, 10, 30, 70]))}
 
 
 @st.composite
